@@ -52,6 +52,25 @@ type caseDesc struct {
 	Txns         []txnDesc   `json:"txns,omitempty"`       // sequential history
 	Goroutines   [][]txnDesc `json:"goroutines,omitempty"` // concurrent history: one list per goroutine
 	Order        []string    `json:"observed_order,omitempty"`
+	Isolation    *isoDesc    `json:"isolation,omitempty"` // many goroutines, each owning its own ids
+}
+
+// isoDesc describes one isolation run: Goroutines goroutines, each owning one id
+// nobody else touches, each doing Rounds write/read-back rounds.
+type isoDesc struct {
+	Goroutines int      `json:"goroutines"`
+	Rounds     int      `json:"rounds"`
+	Seed       uint64   `json:"seed"`
+	Failing    *isoFail `json:"failing,omitempty"`
+	Failures   int      `json:"failures,omitempty"`
+}
+
+type isoFail struct {
+	ID       string `json:"id"`
+	Round    int    `json:"round"`
+	Where    string `json:"where"`
+	Expected string `json:"expected"`
+	Got      string `json:"got"`
 }
 
 // ---- values ----
@@ -429,8 +448,21 @@ func caseTerm(cd caseDesc, runs []txnRun, final []string) string {
 // ---- BadgerDB scratch database, shared by all cases and wiped in between ----
 
 type scratch struct {
-	dir string
-	db  *badger.DB
+	dir  string
+	db   *badger.DB
+	opts badger.Options
+}
+
+// reopen closes the database and opens it again on the same directory.
+func (s *scratch) reopen() {
+	if err := s.db.Close(); err != nil {
+		panic(err)
+	}
+	db, err := badger.Open(s.opts)
+	if err != nil {
+		panic(err)
+	}
+	s.db = db
 }
 
 func openScratch() *scratch {
@@ -449,7 +481,7 @@ func openScratch() *scratch {
 		os.RemoveAll(dir)
 		panic(err)
 	}
-	return &scratch{dir, db}
+	return &scratch{dir, db, opts}
 }
 
 func (s *scratch) close() {
@@ -613,6 +645,291 @@ func runConcurrent(cd caseDesc, sc *scratch) result {
 		res.impl = append(res.impl, ImplViolation{What: s, Desc: cd})
 	}
 	return res
+}
+
+// ---- isolation: many goroutines, each the only user of its own id ----
+//
+// Nobody but the owner touches an id, so whatever the interleaving, a read of the
+// id must return exactly the last value the owner committed (C11: the history is
+// equivalent to one operation at a time PER ID), the OnChange before-value must be
+// the previously committed value, and the content must survive reopening the
+// database.  Values carry their owner and round and vary in size.  Everything is
+// checked on the spot; the first rounds of every id additionally go to the Coq
+// oracle as an ordinary history.
+
+type isoItem struct {
+	O string `json:"o"`
+	S string `json:"s"`
+	P string `json:"p"`
+}
+
+var isoPadSmall = []int{0, 8, 8, 8, 16, 16, 40, 64, 300}
+var isoPadAll = []int{0, 8, 8, 8, 16, 16, 40, 64, 300, 1500}
+
+func isoValue(typed bool, owner string, round int, pad int) interface{} {
+	seq := fmt.Sprintf("%06d", round)
+	mark := owner + "." + seq + "/"
+	var sb strings.Builder
+	for sb.Len() < pad {
+		sb.WriteString(mark)
+	}
+	p := sb.String()[:pad]
+	if typed {
+		return isoItem{O: owner, S: seq, P: p}
+	}
+	return map[string]interface{}{"o": owner, "s": seq, "p": p}
+}
+
+const isoSampleRounds = 8
+
+type isoSlot struct {
+	id      string
+	gid     int64
+	last    *string // canonical JSON of the last committed value, nil = absent
+	pending *string // after-value of the mutation in progress
+	round   int
+	cbs     []cbRec
+	sample  []string // Coq terms (iop) of the first rounds
+}
+
+type isoRun struct {
+	cd    caseDesc
+	slots map[string]*isoSlot
+	mu    sync.Mutex
+	fails int
+	first []isoFail
+}
+
+func (ir *isoRun) fail(id string, round int, where, expected, got string) {
+	ir.mu.Lock()
+	ir.fails++
+	if len(ir.first) < 5 {
+		ir.first = append(ir.first, isoFail{id, round, where, expected, got})
+	}
+	ir.mu.Unlock()
+}
+
+func showOpt(s *string) string {
+	if s == nil {
+		return "<absent>"
+	}
+	return *s
+}
+
+func (ir *isoRun) onChange(id string, before, after interface{}) {
+	sl := ir.slots[id]
+	if sl == nil {
+		ir.fail(id, -1, "OnChange for an id nobody writes", "", "")
+		return
+	}
+	if g := goid(); g != sl.gid {
+		ir.fail(id, sl.round, "OnChange ran on another goroutine than the caller's", strconv.FormatInt(sl.gid, 10), strconv.FormatInt(g, 10))
+		return
+	}
+	b, a := optJSON(before), optJSON(after)
+	sl.cbs = append(sl.cbs, cbRec{id, b, a})
+	if showOpt(b) != showOpt(sl.last) {
+		ir.fail(id, sl.round, "OnChange before-value is not the last committed value", showOpt(sl.last), showOpt(b))
+	}
+	if showOpt(a) != showOpt(sl.pending) {
+		ir.fail(id, sl.round, "OnChange after-value is not the value being written", showOpt(sl.pending), showOpt(a))
+	}
+}
+
+func cbTerms(cbs []cbRec) string {
+	t := make([]string, len(cbs))
+	for i, c := range cbs {
+		t[i] = fmt.Sprintf("(%s,%s,%s)", B(c.id), optS(c.before), optS(c.after))
+	}
+	return List(t)
+}
+
+// readBack checks Value and Exists of an open transaction against the last committed value.
+func (ir *isoRun) readBack(sl *isoSlot, rt store.ReadTxn, where string, sample bool) {
+	v, err := rt.Value()
+	var res string
+	switch {
+	case err == nil:
+		got := canon(v)
+		res = "(RVal " + B(got) + ")"
+		if sl.last == nil || got != *sl.last {
+			ir.fail(sl.id, sl.round, "read does not return the latest committed write: Value "+where, showOpt(sl.last), got)
+		}
+	default:
+		r, cls := classify(err)
+		res = r
+		if sl.last != nil || r != "ENotFound" {
+			ir.fail(sl.id, sl.round, "read does not return the latest committed write: Value "+where, showOpt(sl.last), "error "+cls)
+		}
+	}
+	ex := rt.Exists()
+	if ex != (sl.last != nil) {
+		ir.fail(sl.id, sl.round, "Exists "+where+" is wrong", Bool(sl.last != nil), Bool(ex))
+	}
+	if sample {
+		sl.sample = append(sl.sample,
+			fmt.Sprintf("IO (OValue %s) %s []", B(sl.id), res),
+			fmt.Sprintf("IO (OExists %s) (RBool %s) []", B(sl.id), Bool(ex)))
+	}
+}
+
+const envNone = "(Env false false [])"
+
+func (ir *isoRun) owner(st store.Store, g int, d isoDesc) {
+	sl := ir.slots[fmt.Sprintf("w%02d", g)]
+	sl.gid = goid()
+	r := NewRng(d.Seed*1000003 + uint64(g)*7919 + 1)
+	ownerName := fmt.Sprintf("g%02d", g)
+	for round := 0; round < d.Rounds; round++ {
+		sl.round = round
+		sample := round < isoSampleRounds
+		w := st.Write(sl.id)
+		sl.cbs = nil
+		if sl.last != nil && r.Chance(3) {
+			// delete
+			sl.pending = nil
+			before := sl.last
+			err := w.Delete()
+			res, cls := classify(err)
+			if err != nil {
+				ir.fail(sl.id, round, "Delete of an existing id failed", "nil error", cls)
+			} else {
+				sl.last = nil
+				if len(sl.cbs) != 1 {
+					ir.fail(sl.id, round, "Delete did not run OnChange exactly once", "1", strconv.Itoa(len(sl.cbs)))
+				}
+			}
+			_ = before
+			if sample {
+				sl.sample = append(sl.sample, fmt.Sprintf("IO (ODelete %s %s) %s %s", B(sl.id), envNone, res, cbTerms(sl.cbs)))
+			}
+		} else {
+			pads := isoPadAll
+			if sample {
+				pads = isoPadSmall
+			}
+			v := isoValue(ir.cd.Typed, ownerName, round, pads[r.Intn(len(pads))])
+			want := canon(v)
+			sl.pending = &want
+			var err error
+			kind := "Update"
+			if sl.last == nil {
+				kind = "Create"
+				err = w.Create(v)
+			} else {
+				err = w.Update(v)
+			}
+			res, cls := classify(err)
+			if err != nil {
+				ir.fail(sl.id, round, kind+" that must succeed failed", "nil error", cls)
+			} else {
+				sl.last = &want
+				if len(sl.cbs) != 1 {
+					ir.fail(sl.id, round, kind+" did not run OnChange exactly once", "1", strconv.Itoa(len(sl.cbs)))
+				}
+			}
+			if sample {
+				sl.sample = append(sl.sample, fmt.Sprintf("IO (O%s %s %s %s) %s %s", kind, B(sl.id), B(want), envNone, res, cbTerms(sl.cbs)))
+			}
+		}
+		sl.pending = nil
+		ir.readBack(sl, w, "inside the write transaction", sample)
+		if err := w.Close(); err != nil {
+			ir.fail(sl.id, round, "Close failed", "nil", err.Error())
+		}
+		rt := st.Read(sl.id)
+		ir.readBack(sl, rt, "in a read transaction after the commit", sample)
+		rt.Close()
+	}
+}
+
+func runIsolation(cd caseDesc) result {
+	d := *cd.Isolation
+	d.Failing, d.Failures = nil, 0
+	cd.Isolation = &d
+	ir := &isoRun{cd: cd, slots: map[string]*isoSlot{}}
+	for g := 0; g < d.Goroutines; g++ {
+		id := fmt.Sprintf("w%02d", g)
+		ir.slots[id] = &isoSlot{id: id}
+	}
+	var sc *scratch
+	mk := func() store.Store {
+		if cd.Store == "badger" {
+			st := badgerstore.NewStore(sc.db)
+			if cd.Typed {
+				st.SetType(isoItem{})
+			}
+			st.SetPrefix(cd.Prefix)
+			st.OnChange(ir.onChange)
+			return st
+		}
+		st := mockstore.NewStore()
+		st.OnChange(ir.onChange)
+		return st
+	}
+	if cd.Store == "badger" {
+		sc = openScratch()
+		defer sc.close()
+	}
+	st := mk()
+	var wg sync.WaitGroup
+	gate := make(chan struct{})
+	for g := 0; g < d.Goroutines; g++ {
+		wg.Add(1)
+		go func(g int) {
+			defer wg.Done()
+			<-gate
+			ir.owner(st, g, d)
+		}(g)
+	}
+	close(gate)
+	wg.Wait()
+	// at the end, and again after reopening the database: every id holds its owner's last value
+	finalCheck := func(st store.Store, where string) {
+		for g := 0; g < d.Goroutines; g++ {
+			sl := ir.slots[fmt.Sprintf("w%02d", g)]
+			sl.round = d.Rounds
+			rt := st.Read(sl.id)
+			ir.readBack(sl, rt, where, false)
+			rt.Close()
+		}
+	}
+	finalCheck(st, "after all goroutines finished")
+	res := result{dist: map[string]int{}}
+	if cd.Store == "badger" {
+		sc.reopen()
+		finalCheck(mk(), "after reopening the database")
+		res.dist["iso_reopened"]++
+	}
+	var ops []string
+	for g := 0; g < d.Goroutines; g++ {
+		ops = append(ops, ir.slots[fmt.Sprintf("w%02d", g)].sample...)
+	}
+	kind := "(SMock false)"
+	if cd.Store == "badger" {
+		kind = "(SBadger " + B(cd.Prefix) + ")"
+	}
+	res.dist["iso_goroutines"] += d.Goroutines
+	res.dist["iso_rounds"] += d.Goroutines * d.Rounds
+	res.dist["iso_failures"] += ir.fails
+	res.c = Case{Term: fmt.Sprintf("KC %s\n %s\n []", kind, List(ops)), Desc: cd, Nontrivial: true, Tags: []string{"isolation"}}
+	for _, f := range ir.first {
+		f := f
+		fd := d
+		fd.Failing, fd.Failures = &f, ir.fails
+		fcd := cd
+		fcd.Isolation = &fd
+		res.impl = append(res.impl, ImplViolation{
+			What: fmt.Sprintf("%s (id %s owned by one goroutine, round %d): expected %.200s, got %.200s; %d such failures in this run",
+				f.Where, f.ID, f.Round, f.Expected, f.Got, ir.fails),
+			Desc: fcd, Tags: []string{"isolation"}})
+	}
+	return res
+}
+
+func genIsolation(r *Rng, store string, typed bool, prefix string, rounds int) caseDesc {
+	return caseDesc{Store: store, Typed: typed, Prefix: prefix,
+		Isolation: &isoDesc{Goroutines: 8 + r.Intn(9), Rounds: rounds, Seed: r.Next() % 1000000}}
 }
 
 // ---- generators ----
@@ -795,7 +1112,9 @@ func main() {
 			panic(err)
 		}
 		cd.Order = nil
-		if len(cd.Goroutines) > 0 {
+		if cd.Isolation != nil {
+			add("replay_isolation", runIsolation(cd))
+		} else if len(cd.Goroutines) > 0 {
 			n := 20
 			if o.N > 0 {
 				n = o.N
@@ -842,8 +1161,18 @@ func main() {
 		for i := 0; i < nconc; i++ {
 			add("concurrent", runConcurrent(genConcurrent(r), sc))
 		}
+		// (d) isolation: 8-16 goroutines, each the only user of its own id, many write/read-back rounds
+		niso, rounds := 1, 1200
+		if thorough {
+			niso, rounds = 4, 6000
+		}
+		for i := 0; i < niso; i++ {
+			add("isolation", runIsolation(genIsolation(r, "badger", false, "iso", rounds)))
+			add("isolation", runIsolation(genIsolation(r, "badger", true, "", rounds*2/3)))
+			add("isolation", runIsolation(genIsolation(r, "mock", false, "", rounds/3)))
+		}
 	}
 	Emit(o, "C11", "From GoRes Require Import Run.Run_C11.", "kcase",
-		"histories of Create/Update/Delete/Value/Exists through Read/Write transactions of the real badgerstore (scratch BadgerDB; typed/untyped, prefix \"\"/p/x.y, with/without a vetoing BeforeChange) and mockstore (with/without NewID): all histories of <=2 (thorough <=3) single-operation transactions over ids {a,\"\"}, random sequential histories of 1-25 operations over {a,b,c,\"\"} with 1-4 operations per transaction, and concurrent runs of 2-6 goroutines x 5-20 transactions over 2-3 ids serialised by observed lock acquisition order; non-trivial = at least two successful mutations, or a read of the transaction's own write, or a concurrent run; distinct by the whole observed history",
+		"histories of Create/Update/Delete/Value/Exists through Read/Write transactions of the real badgerstore (scratch BadgerDB; typed/untyped, prefix \"\"/p/x.y, with/without a vetoing BeforeChange) and mockstore (with/without NewID): all histories of <=2 (thorough <=3) single-operation transactions over ids {a,\"\"}, random sequential histories of 1-25 operations over {a,b,c,\"\"} with 1-4 operations per transaction, and concurrent runs of 2-6 goroutines x 5-20 transactions over 2-3 ids serialised by observed lock acquisition order, and isolation runs of 8-16 goroutines each owning one id for 400-1200 (thorough up to 6000) write/read-back rounds with owner- and round-stamped values of 30-1500 bytes, checked on the spot, at the end and after reopening the database (first 8 rounds per id also go to the Coq oracle); non-trivial = at least two successful mutations, or a read of the transaction's own write, or a concurrent run; distinct by the whole observed history",
 		cases, dist, nil, impl, 300)
 }
